@@ -17,6 +17,10 @@ CHECKS = {
   "runtime monitoring: order reference model over independently decoded commit DAGs, on produced and hand-crafted histories",
   "Every bug read in generated replica schedules, and every read/merge of hand-crafted commit DAGs (all small fork/merge shapes, clock assignments and single perturbations from the forbidden list), is compared with a reference model of the documented ordering and refusal rules; also across storage backends and merge-parent orders.",
   "Held on the enumerated shapes (<=5 commits exhaustively, 6 sampled) and executed schedules; trusts refmodel/order.go and the gitraw reader."),
+ "C07": ("exploration",
+  "runtime monitoring: hostile-input catalogue and byte fuzz executed in child processes, crash and damage monitor over before/after views",
+  "A hostile bare repository serves mutated bug and identity histories (catalogue of ~250 structural mutation kinds at every position, per-field type confusion discovered from the live operation encoding, seeded byte fuzz); each case does a real fetch+merge (entity API and cache API) or a local read in a child process; the monitor checks process survival, the reported status against the case's class and that every local ref and entity is unchanged.",
+  "must-reject/may-accept classification is the harness's reading of the property; thorough children run under the race detector (reports are diagnostics only)."),
  "C20": ("exploration",
   "runtime monitoring: Relay reference-model oracle over executed pagination calls, page walks and GraphQL requests",
   "Every generated connection function is executed on all small inputs (lengths, page sizes, cursor positions incl. foreign and malformed; bounded part exhaustive) and each observable result is compared with a Relay reference model; forward/backward page walks and end-to-end GraphQL walks replay what a client does.",
